@@ -168,3 +168,20 @@ Print Assumptions model_is_code_datetime_dunder_add.
 Theorem model_is_code_datetime_dunder_radd : forall dt o, glue_DateTime___radd__ dt o = g_add_timedelta dt o.
 Proof. exact glue_dunder_radd. Qed.
 Print Assumptions model_is_code_datetime_dunder_radd.
+
+(* ---- THE MODEL IS THE CODE (float path of helpers.add_duration).  Gen/FloatRoutesGen.v is translated from /repo's src/pendulum/helpers.py on every
+   run (tools/vlib/pyfloat2gallina.py + gens/g54_float_routes.py): add_duration(dt, seconds=<float>) with every other argument the int 0 — the route
+   of DateTime.add(seconds=<float>) and of dt +- <plain timedelta> — with every path statically typed (minutes / hours / days are the int 0 until a
+   carry makes them floats), CPython's conversion points, the carry constants, _sign = int(copysign(1, x)), the month-end clamp, dt.replace and
+   dt + timedelta(...).  The hand model Model/FloatRoutes.add_duration_float (carry_step / float_carry over the int-or-float `pynum`), about which
+   the timedelta theorems above speak, EQUALS that translation for every datetime and every double: its `pynum` dispatch layer is proved, not trusted.
+   (Gen/AddDuration.v is the INTEGER typing of the same source.) *)
+From PV Require Import Gen.FloatRoutesGen Proofs.FloatRoutesGenFacts.
+
+Theorem model_is_code_add_duration_float : forall d x, gen_add_duration_float d x = add_duration_float d x.
+Proof. exact gen_add_duration_float_eq. Qed.
+Print Assumptions model_is_code_add_duration_float.
+
+Theorem model_is_code_sign_float : forall x, gen_sign_float x = Ok (if sf_sign x then -1 else 1).
+Proof. exact gen_sign_float_eq. Qed.
+Print Assumptions model_is_code_sign_float.
